@@ -346,7 +346,19 @@ class C10(PropOracle):
         cur["disk_cv"] = _int(cur["snap"]["config_version.txt"])
         cur["disk_sv"] = _int(cur["snap"]["job_status_version.txt"])
         cur["disk_cfg"] = json.loads(cur["snap"]["cluster_config.json"] or b"{}")
+        try:
+            cur["json_sv"] = json.loads(cur["snap"]["job_status.json"] or b"{}").get("version")
+        except ValueError:
+            cur["json_sv"] = None
+        cur["json_cv"] = cur["disk_cfg"].get("version")
         self.order.append((vp.name, cur["i"]))
+
+    def on_killed(self, w, vp, d):
+        if self.in_cs == vp.name:
+            self.in_cs = None  # a dead process is not inside; its marker may be broken by the survivor
+        if self.role == vp.name:
+            self.role = None
+        self.cur.pop(vp.name, None)
 
     def on_released(self, w, vp, d):
         if d["rel"] == "cluster_config.json.lock" and self.in_cs == vp.name:
@@ -369,8 +381,12 @@ class C10(PropOracle):
                 self.v(w, f"{vp.name}: {op} finished without taking the cluster lock", "no-lock")
             return
         after = cur.get("after") or _snap(w.root)
-        stale_c = cur["local_cv"] is not None and cur["local_cv"] != cur["disk_cv"]
-        stale_s = cur["local_sv"] is not None and cur["local_sv"] != cur["disk_sv"]
+        # "out of date" is judged against the state files themselves (the version files are JADE's mechanism,
+        # not the ground truth; they only differ from the JSON files after a crash between the two writes)
+        tc = cur.get("json_cv") if cur.get("json_cv") is not None else cur["disk_cv"]
+        ts = cur.get("json_sv") if cur.get("json_sv") is not None else cur["disk_sv"]
+        stale_c = cur["local_cv"] is not None and cur["local_cv"] != tc
+        stale_s = cur["local_sv"] is not None and cur["local_sv"] != ts
         writes = WRITES.get(kind, ())
         if kind in ("D", "P"):
             stale_c = stale_s = False  # loads fresh state under the lock
@@ -382,7 +398,7 @@ class C10(PropOracle):
                 self.v(w, f"{vp.name}: {op} was rejected with {exc} but changed {changed} on disk "
                           f"(local versions config={cur['local_cv']} status={cur['local_sv']}, disk {cur['disk_cv']}/{cur['disk_sv']})",
                        "rejected-write-changed-files")
-            if not must_reject:
+            if not must_reject and not w.data.get("faulty"):
                 self.v(w, f"{vp.name}: {op} rejected with {exc} although its copy was current", "spurious-mismatch")
         elif must_reject and exc is None:
             self.v(w, f"{vp.name}: {op} with an out-of-date copy (local config={cur['local_cv']} status={cur['local_sv']}, "
@@ -401,6 +417,10 @@ class C10(PropOracle):
     def on_end(self, w, vp, d):
         if w.lock_notes:
             self.v(w, f"cluster state accessed without the lock: {sorted(w.lock_notes)[:3]}", "unlocked-access")
+        if w.data.get("faulty"):
+            w.data["final"] = dict(nv=len(w.vprocs), complete=True, classes=tuple(sorted(map(str, self.results.items()))))
+            w.data["outcome"] = hashlib.blake2b(repr(sorted(map(str, self.results.items()))).encode(), digest_size=8).hexdigest()
+            return
         # linearizability witness: the same operations run sequentially in lock-acquisition order
         ref = sequential_reference(w.scen, self.order)
         final = _snap(w.root)
